@@ -527,11 +527,38 @@ fn semantic_tokens(root: &Relation) -> BTreeMap<String, usize> {
     out
 }
 
+/// Two different nodes of one relation carry the same generated name (the content hash is cut to
+/// four base-36 characters): the rendered text declares two CTEs of that name and every
+/// reference binds to the first. Returns the shared name.
+fn name_collision(root: &Relation) -> Option<String> {
+    let mut seen: Vec<&Relation> = vec![];
+    let mut stack = vec![root];
+    while let Some(r) = stack.pop() {
+        if let Some(other) = seen.iter().find(|s| s.name() == r.name()) {
+            if *other != r {
+                return Some(r.name().to_string());
+            }
+            continue;
+        }
+        seen.push(r);
+        for i in r.inputs() {
+            stack.push(i);
+        }
+    }
+    None
+}
+
 #[allow(clippy::too_many_arguments)]
 fn reparse_check(ctx: &Ctx, who: &str, qi: usize, r: &Relation, text: &str, c2: &Compiled, r2: &Option<Relation>, semantic: bool) {
     let q = &ctx.wl.queries[qi];
+    let collision = name_collision(r);
+    if collision.is_some() {
+        probe(ctx, "content_name_collision_in_one_relation");
+    }
+    // class of every fixpoint failure of such a relation (known finding content_name_collision)
+    let fix_class = if collision.is_some() { "content_name_collision" } else { "unclassified" };
     if !c2.ok {
-        let class = if has_set_op(q) && c2.err.contains("Unknown table") { "set_operation_alias" } else { "unclassified" };
+        let class = if has_set_op(q) && c2.err.contains("Unknown table") { "set_operation_alias" } else { fix_class };
         violation(
             ctx,
             "reparse_fails",
@@ -547,9 +574,9 @@ fn reparse_check(ctx: &Ctx, who: &str, qi: usize, r: &Relation, text: &str, c2: 
         violation(
             ctx,
             "reparse_schema",
-            "unclassified",
+            fix_class,
             format!("{}: re-parsing the SQL rendered for `{}` gives another output schema", who, q),
-            json!({"query": q, "schema": s1, "reparsed_schema": s2}),
+            json!({"query": q, "schema": s1, "reparsed_schema": s2, "rendered": text.chars().take(1200).collect::<String>()}),
         );
         return;
     }
@@ -571,7 +598,7 @@ fn reparse_check(ctx: &Ctx, who: &str, qi: usize, r: &Relation, text: &str, c2: 
             violation(
                 ctx,
                 "reparse_structure",
-                "unclassified",
+                fix_class,
                 format!("{}: re-parsing the SQL rendered for `{}` gives a relation that computes something else (operators / literals / functions that differ: {:?})", who, q, diff),
                 json!({"query": q, "rendered": text.chars().take(400).collect::<String>(), "differs": diff}),
             );
@@ -635,7 +662,7 @@ fn reparse_check(ctx: &Ctx, who: &str, qi: usize, r: &Relation, text: &str, c2: 
                         violation(
                             ctx,
                             "reparse_semantics",
-                            "unclassified",
+                            fix_class,
                             format!("{}: the relation of `{}` and the relation re-parsed from its rendering return different rows on the same instance", who, q),
                             json!({"query": q, "rows": ra.rows.len(), "reparsed_rows": rb.rows.len()}),
                         );
